@@ -21,7 +21,8 @@ class MocksEmitter:
     """Generates mock helper classes for testing."""
 
     def __init__(self, context: RenderContext) -> None:
-        self.endpoint_visitor = EndpointVisitor()
+        # Same schema table as the endpoint clients get, so that mock signatures resolve types identically
+        self.endpoint_visitor = EndpointVisitor(context.parsed_schemas)
         self.client_visitor = ClientVisitor()
         self.context = context
 
